@@ -4,7 +4,7 @@
      known finding only if switching that finding's delta on makes the recogniser agree with the crate on that
      very text (DESIGN.md 8, "deviation switches"); anything else is a violation;
    * the `_refuted` witnesses of Props/C03.v.
-   Bit 0 is not a finding but an interpretive decision (the comment on type1 in RFC 8610 Appendix B).
+   The base of every variant is Abnf8610.abnf_spec (names are maximal tokens); mask 0 is the specification itself.
    No proofs here. *)
 From Coq Require Import String Ascii.
 From Cddl Require Import Grammar.Cfg Grammar.Abnf8610.
@@ -15,35 +15,40 @@ Definition override (n : N) (prods : list aexp) (g : cfg) : cfg :=
 
 (* auxiliary rule names of the deltas *)
 Definition n_idns := 100.        (* identifier that does not start with "$" (cddl.pest: id) *)
-Definition n_type2id := 101.     (* type2 alternatives that END in an identifier *)
-Definition n_type2ne := 102.     (* the other type2 alternatives *)
 Definition n_anyq := 103.        (* any character except ' *)
 Definition n_tagvalue := 104.
 Definition n_grpent0 := 105.     (* group entries a plain "=" group rule can start with *)
 Definition n_occ3 := 106.
-Definition n_decuint := 107.
 Definition n_ctlname := 108.
 
 Definition bit (m : N) (k : N) : bool := N.testbit m k.
 
-Definition d_note_type1 := 0.      (* interpretive: "space may be needed before the operator if type2 ends in a name" *)
 Definition d_id_runs := 1.         (* id: at most one "-" / "." between name characters *)
 Definition d_dollar := 2.          (* "$" only as socket prefix: typename = ["$"] id', groupname = ["$$"] id' *)
 Definition d_group_rule := 3.      (* name = grpent is read as a type rule whenever the entry starts like a type *)
 Definition d_bytes_raw := 4.       (* '...' content is raw: no SESC / \' , any character but ' *)
 Definition d_bsqual_case := 5.     (* h / b64 prefixes are case-sensitive *)
-Definition d_cborseq := 6.         (* control_name tries "cbor" before "cborseq" *)
+Definition d_cborseq := 6.         (* control names are matched as prefixes: "cbor" wins over "cborseq", no token boundary *)
 Definition d_radix_float := 7.     (* float mantissa is decimal only *)
 Definition d_bytes_key := 8.       (* byte-string literal as "value :" member key is rejected by the bridge *)
 Definition d_implicit_ws := 9.     (* pest's implicit skip admits blanks/comments where the RFC has no S *)
 Definition d_tag_forms := 10.      (* #DIGIT[.<type>][(type)] for every major type *)
 Definition d_ctrl_chars := 11.     (* control characters in text literals and comments, lone CR as whitespace *)
 Definition d_escapes := 12.        (* \uXXXX and \u{X..} for any hex digits (surrogates, > 10FFFF) *)
-Definition all_deviations : N := 8191.   (* 2^13 - 1 *)
+Definition d_paren_entry := 13.    (* a group entry starting with "(" is an inline group, whatever follows the ")" *)
+Definition all_deviations : N := 16382.   (* bits 1 .. 13 *)
 
 Definition dash_dot : aexp := AAlts [L "-"; L "."].
+(* the crate's id stops where  (("-" | ".")? (EALPHA | DIGIT))*  stops *)
+Definition name_continues1 (r : list N) : bool :=
+  match r with
+  | c :: r' => is_ealpha c || is_digit c ||
+               (((c =? 45) || (c =? 46)) && match r' with d :: _ => is_ealpha d || is_digit d | [] => false end)
+  | [] => false
+  end.
 Definition id_body (start : aexp) (runs : bool) : aexp :=
-  ASeqs [start; AStar (ASeqs [if runs then AStar dash_dot else AOpt dash_dot; AAlts [R n_EALPHA; R n_DIGIT]])].
+  ASeqs [start; AStar (ASeqs [if runs then AStar dash_dot else AOpt dash_dot; AAlts [R n_EALPHA; R n_DIGIT]]);
+         ALook (if runs then name_boundary else fun r => negb (name_continues1 r))].
 Definition ealpha_start : aexp := AAlts [R n_ALPHA; L "@"; L "_"].
 
 Definition ctl_names (m : N) : list string :=
@@ -65,7 +70,7 @@ Definition tag_forms (ws general : bool) : list aexp :=
      ASeqs [L "#"; s; par]].
 
 Definition variant (m : N) : cfg :=
-  let g0 := abnf_lenient in
+  let g0 := abnf_spec in
   (* identifiers *)
   let runs := negb (bit m d_id_runs) in
   let g1 := override n_id [id_body (R n_EALPHA) runs] g0 ++ [(n_idns, id_body ealpha_start runs)] in
@@ -76,23 +81,8 @@ Definition variant (m : N) : cfg :=
               (override n_genericparm [ASeqs [L "<"; S_; R n_idns; S_; AStar (ASeqs [L ","; S_; R n_idns; S_]); L ">"]] g1)))
             else g1 in
   (* control operators *)
-  let g3 := override n_ctlop [ASeqs [L "."; R n_ctlname]] g2 ++ [(n_ctlname, AAlts (map X (ctl_names m)))] in
-  (* type2 split for the type1 note; every later delta that adds a type2 production adds it to type2ne as well *)
-  let ga := AOpt (R n_genericarg) in
-  let t2id := [R n_typename; ASeqs [L "~"; S_; R n_typename]; ASeqs [L "&"; S_; R n_groupname]] in
-  let t2ne := [R n_value;
-               ASeqs [R n_typename; R n_genericarg];
-               ASeqs [L "("; S_; R n_type; S_; L ")"];
-               ASeqs [L "{"; S_; R n_group; S_; L "}"];
-               ASeqs [L "["; S_; R n_group; S_; L "]"];
-               ASeqs [L "~"; S_; R n_typename; R n_genericarg];
-               ASeqs [L "&"; S_; L "("; S_; R n_group; S_; L ")"];
-               ASeqs [L "&"; S_; R n_groupname; R n_genericarg];
-               ASeqs [L "#"; L "6"; AOpt (ASeqs [L "."; R n_headnumber]); L "("; S_; R n_type; S_; L ")"];
-               ASeqs [L "#"; L "7"; AOpt (ASeqs [L "."; R n_headnumber])];
-               ASeqs [L "#"; R n_DIGIT; AOpt (ASeqs [L "."; R n_uint])];
-               L "#";
-               ASeqs [L "#"; L "("; S_; R n_type; S_; L ")"]] in          (* leniency #(type) *)
+  let g3 := override n_ctlop [ASeqs [L "."; R n_ctlname]] g2
+            ++ [(n_ctlname, ASeqs [AAlts (map X (ctl_names m)); if bit m d_cborseq then AEps else ALook name_boundary])] in
   let extra_t2 :=
         (if bit m d_implicit_ws then
            [ASeqs [R n_typename; S_; R n_genericarg];
@@ -101,24 +91,24 @@ Definition variant (m : N) : cfg :=
            ++ tag_forms true (bit m d_tag_forms)
          else [])
         ++ (if bit m d_tag_forms then tag_forms false true else []) in
-  let g4 := g3 ++ map (fun e => (n_type2, e)) extra_t2
-               ++ map (fun e => (n_type2id, e)) t2id
-               ++ map (fun e => (n_type2ne, e)) (t2ne ++ extra_t2) in
-  let g5 := if bit m d_note_type1 then
-              override n_type1
-                [ASeqs [R n_type2; AOpt (ASeqs [S_; R n_rangeop; S_; R n_type2])];
-                 ASeqs [R n_type2ne; S_; R n_ctlop; S_; R n_type2];
-                 ASeqs [R n_type2id; R n_WS; S_; R n_ctlop; S_; R n_type2]] g4
-            else g4 in
+  let g5 := g3 ++ map (fun e => (n_type2, e)) extra_t2 in
   (* group rules: with "=" the entry must not start like a type *)
+  let np := if bit m d_paren_entry then ALook (fun r => negb (starts (N.eqb 40) r)) else AEps in
   let g6 := if bit m d_group_rule then
               override n_rule
                 [ASeqs [R n_typename; AOpt (R n_genericparm); S_; R n_assignt; S_; R n_type];
                  ASeqs [R n_groupname; AOpt (R n_genericparm); S_; L "//="; S_; R n_grpent];
-                 ASeqs [R n_groupname; AOpt (R n_genericparm); S_; L "="; S_; R n_grpent0]] g5
+                 ASeqs [R n_groupname; AOpt (R n_genericparm); S_; L "="; S_; R n_grpent0];
+                 (* a "$$" name cannot be read as a typename, so nothing is committed *)
+                 ASeqs [L "$$"; if bit m d_implicit_ws then S_ else AEps; R n_idns;
+                        if bit m d_implicit_ws then ASeqs [S_; AOpt (R n_genericparm)] else AOpt (R n_genericparm);
+                        S_; L "="; S_; R n_grpent]] g5
               ++ [(n_occ3, AAlts [L "?"; L "+"; ASeqs [L "*"; AOpt (R n_uint)]]);
-                  (n_grpent0, AAlts [ASeqs [R n_occ3; S_; AOpt (ASeqs [R n_memberkey; S_]); R n_type];
-                                     ASeqs [R n_occ3; S_; R n_groupname; AOpt (R n_genericarg)];
+                  (n_grpent0, AAlts [ASeqs [R n_occ3; S_; np; AOpt (ASeqs [R n_memberkey; S_]); R n_type];
+                                     ASeqs [R n_occ3; S_; np; R n_groupname; AOpt (R n_genericarg)];
+                                     (if bit m d_paren_entry
+                                      then ASeqs [R n_occ3; S_; L "("; S_; R n_type; S_; L ")"; S_; AOpt (ASeqs [L "^"; S_]); L "=>"; S_; R n_type]
+                                      else AFail);
                                      ASeqs [AOpt (ASeqs [R n_occ3; S_]); L "("; S_; R n_group; S_; L ")"];
                                      ASeqs [R n_groupname; AOpt (R n_genericarg)]])]
             else g5 in
@@ -130,14 +120,16 @@ Definition variant (m : N) : cfg :=
                  ASeqs [AChr 104; AChr 34; AStar (R n_HQCHAR); AChr 34]] g6
               ++ [(n_anyq, AAlts [ARng 0 38; ARng 40 1114111])]
             else g6 in
-  (* numbers *)
+  (* numbers: no fraction / exponent after a 0x / 0b integer *)
   let g8 := if bit m d_radix_float then
               override n_number
                 [R n_hexfloat;
-                 ASeqs [AOpt (L "-"); R n_decuint;
-                        AAlts [ASeqs [L "."; R n_fraction; AOpt (ASeqs [L "e"; R n_exponent])]; ASeqs [L "e"; R n_exponent]]];
-                 R n_int] g7
-              ++ [(n_decuint, AAlts [ASeqs [R n_DIGIT1; AStar (R n_DIGIT)]; L "0"])]
+                 R n_hexint;
+                 ASeqs [AOpt (L "-"); L "0b"; APlus (R n_BINDIG); ALook (fun r => negb (starts is_bin r))];
+                 ASeqs [AOpt (L "-"); AAlts [ASeqs [R n_DIGIT1; AStar (R n_DIGIT); ALook (fun r => negb (starts is_digit r))];
+                                             ASeqs [L "0"; ALook (fun r => negb (radix_follows r))]];
+                        AAlt (ASeqs [L "."; R n_fraction]) (ALook (fun r => negb (frac_follows r)));
+                        AAlt (ASeqs [L "e"; R n_exponent]) (ALook (fun r => negb (exp_follows r)))]] g7
             else g7 in
   (* member keys *)
   let g9 := if bit m d_bytes_key then
@@ -165,13 +157,22 @@ Definition variant (m : N) : cfg :=
                        (n_PCHAR, AAlts [ARng 0 9; ARng 11 1114111]);
                        (n_WS, AChr 13)]
              else g10 in
+  let g11 := if bit m d_paren_entry then
+               let occ := AOpt (ASeqs [R n_occur; S_]) in
+               let not_paren := ALook (fun r => negb (starts (N.eqb 40) r)) in
+               override n_grpent
+                 ([ASeqs [occ; not_paren; AOpt (ASeqs [R n_memberkey; S_]); R n_type];
+                   ASeqs [occ; not_paren; R n_groupname; AOpt (R n_genericarg)];
+                   ASeqs [occ; L "("; S_; R n_group; S_; L ")"];
+                   ASeqs [occ; L "("; S_; R n_type; S_; L ")"; S_; AOpt (ASeqs [L "^"; S_]); L "=>"; S_; R n_type]]
+                  ++ (if bit m d_implicit_ws then [ASeqs [occ; not_paren; R n_groupname; S_; R n_genericarg]] else [])) g11
+             else g11 in
   let g12 := if bit m d_escapes then
                g11 ++ [(n_SESC, ASeqs [AChr 92; AChr 117; ARepN 4 (R n_HEXDIG)]);
                        (n_SESC, ASeqs [AChr 92; AChr 117; L "{"; APlus (R n_HEXDIG); L "}"])]
              else g11 in
   g12.
 
-(* derivability in the variant selected by the mask; mask 1 = the specification C03 compares against
-   (RFC + documented leniencies + the type1 note) *)
+(* derivability in the variant selected by the mask; mask 0 = the specification C03 compares against
+   (RFC + documented leniencies, names as maximal tokens) *)
 Definition variant_accepts (m : N) (w : list N) : option bool := recognise (variant m) n_cddl w.
-Definition spec_mask : N := 1.
